@@ -478,9 +478,33 @@ def gen_cut_front_sources(rng):
     return pre, body, tb or 96
 
 
+def gen_cut_unsorted_sources(rng):
+    """a LONG track (well over 20 events) whose event list is not in time order when the file is generated (Sub{} blocks write
+    earlier ticks after later ones) and which sets one controller / the program twice AT ONE TICK, or the program right before
+    a note: the latest value in WRITTEN order is the one in force, so whatever sorts the events before the cut must keep the
+    written order of events with equal ticks"""
+    body = "l8 "
+    for _ in range(rng.randrange(12, 30)):
+        k = rng.random()
+        if k < 0.45:
+            body += rng.choice("cdefgab") + " "
+        elif k < 0.60:
+            no = rng.choice([7, 10, 11, 1])
+            body += "y%d,%d y%d,%d " % (no, rng.randrange(0, 128), no, rng.randrange(0, 128))
+        elif k < 0.70:
+            body += "@%d @%d " % (rng.randrange(1, 129), rng.randrange(1, 129))
+        elif k < 0.80:
+            body += "@%d %s " % (rng.randrange(1, 129), rng.choice("cdefgab"))
+        elif k < 0.95:
+            body += "Sub{ %s} " % "".join(rng.choice("cdefgab") + " " for _ in range(rng.randrange(1, 7)))
+        else:
+            body += "r "
+    return "", body, 96
+
+
 def check_cut_front(ctx, rng, n, origin):
     """PlayFrom(n) / PlayFrom(m:b:t) in front; the points are chosen from the full compile (exact note starts, +-1, 0, beyond)"""
-    gens = [gen_cut_front_sources(rng) for _ in range(n)]
+    gens = [gen_cut_front_sources(rng) for _ in range(n)] + [gen_cut_unsorted_sources(rng) for _ in range(n // 3)]
     decs = compile_all(ctx, [p + b for p, b, _ in gens], compare=False)
     pairs = []
     for (pre, body, tb), d in zip(gens, decs):
